@@ -528,6 +528,12 @@ def solve_configs():
     C["converge"] = lambda rng: (_rosen, x0r() + 0.1 * rng.normal(size=2), dict(user_params=diag(rng)))
     C["rhoend"] = lambda rng: (_linear(4, 2, rng), np.zeros(2), dict(user_params=diag(rng)))
     C["x0-optimal"] = lambda rng: (_rosen, np.array([1.0, 1.0]), dict(user_params=diag(rng)))
+    # residual functions returning integer / single-precision arrays, with the exit taken at x0 (warm start at the solution or a
+    # loose tolerance): every array of the result must come out as float64 whatever the user's function returns
+    C["x0-exit-foreign-dtype"] = lambda rng: (lambda dt: ((lambda x: np.array([round(10 * (x[1] - x[0] ** 2)), round(1 - x[0])]).astype(dt)),
+                                                         np.array([1.0, 1.0]) if rng.random() < 0.5 else x0r(),
+                                                         dict(user_params=diag(rng, 0.2, {"model.abs_tol": float(rng.choice([1e-12, 1e3]))}))))(
+        [np.int64, np.int32, np.float32][int(rng.integers(3))])
     C["budget-in-init"] = lambda rng: (_linear(3, 3, rng), np.zeros(3), dict(maxfun=int(rng.integers(1, 4)), user_params=diag(rng)))
     C["slow"] = lambda rng: (_rosen, x0r(), dict(user_params=diag(rng, extra={"slow.max_slow_iters": int(rng.integers(1, 3)),
                                                                          "slow.thresh_for_slow": 1e10, "slow.history_for_slow": 1})))
@@ -565,6 +571,12 @@ def solve_configs():
     C["two-projections"] = proj
     C["nsamples"] = lambda rng: (noisy(rng, 1e-3), x0r(), dict(maxfun=30, objfun_has_noise=True, nsamples=lambda d, r, i, k: 2,
                                                                user_params=diag(rng)))
+    # budgets that end in the middle of the samples of a point (any kind of step), and extra regression steps with a loose
+    # tolerance: exits taken inside geometry / regression steps hand their point over through other save sites
+    C["nsamples-budget-sweep"] = lambda rng: (lambda k: (noisy(rng, 1e-3), x0r(), dict(maxfun=int(rng.integers(20, 80)), objfun_has_noise=True,
+                                                                                       nsamples=lambda d, r, i, kk, k=k: k, user_params=diag(rng, 0.3))))(int(rng.integers(2, 4)))
+    C["regression-extra-steps-loose-tol"] = lambda rng: (_rosen, x0r(), dict(npt=5, user_params=diag(rng, 0.3, {"regression.num_extra_steps": 2,
+                                                                                                          "model.abs_tol": float(rng.choice([0.5, 0.8, 2.0]))})))
     return C
 
 
